@@ -117,8 +117,8 @@ def spec(tier, seed):
             if p[0] != "ok":
                 continue
             nscanned += 1
-            import builtins
-            allowed = program_names(sk) | {"hy", "E", "CM", "F", "E1", "E2", "E3"} | set(dir(builtins))  # e.g. __debug__
+            # __debug__ is Python's compile-time constant (used for assert), not a variable the compiler introduces
+            allowed = program_names(sk) | {"hy", "E", "CM", "F", "E1", "E2", "E3", "__debug__"}
             for tree in (p[3], p[4]):
                 for nm in scan_names(tree):
                     if nm in allowed:
